@@ -267,7 +267,7 @@ class BeltStore(Store):
             # 6) Compute new insertion index
             if self.mode == "FIFO":
                 # one slot before the remaining reserved block
-                insert_idx = len(self.ready_items) - len(self.reserved_events) - 1
+                insert_idx = len(self.reserved_events)
             else:  # LIFO
                 # top of stack
                 insert_idx = len(self.ready_items)
